@@ -105,8 +105,17 @@ def digitVal (c : Char) : Nat := c.toNat - '0'.toNat
 
 def natOfDigits (s : Str) : Nat := s.foldl (fun a c => a * 10 + digitVal c) 0
 
+def digitChar (d : Nat) : Char := Char.ofNat (48 + d)
+
+/-- decimal digits of a natural number, most significant first (fuel = n + 1 suffices) -/
+def natDigitsAux : Nat → Nat → List Char
+  | 0, _ => []
+  | f + 1, n => if n < 10 then [digitChar n] else natDigitsAux f (n / 10) ++ [digitChar (n % 10)]
+
+def natDigits (n : Nat) : List Char := natDigitsAux (n + 1) n
+
 /-- `str(n)` for a natural number -/
-def natRepr (n : Nat) : Str := (toString n).toList
+def natRepr (n : Nat) : Str := natDigits n
 
 def intRepr : Int → Str
   | .ofNat n => natRepr n
